@@ -17,8 +17,8 @@ from common import REPO, emit, fail, sha1_of
 
 SRC = os.path.join(REPO, "pandora", "aggregation", "cbca.py")
 KERNELS = ["cbca_step_1", "cbca_step_2", "cbca_step_3", "cbca_step_4", "cross_support"]
-DTYPES = {"f8": "F64", "f4": "F32", "i2": "I16", "i8": "I64"}
-NP_DTYPES = {"float64": "F64", "float32": "F32", "int16": "I16", "int64": "I64"}
+DTYPES = {"f8": "F64", "f4": "F32", "i2": "I16", "i4": "I32", "i8": "I64"}
+NP_DTYPES = {"float64": "F64", "float32": "F32", "int16": "I16", "int32": "I32", "int64": "I64"}
 BINOPS = {ast.Add: "BAdd", ast.Sub: "BSub", ast.Mult: "BMul"}
 CMPOPS = {ast.GtE: "BGe", ast.Gt: "BGt", ast.LtE: "BLe", ast.Lt: "BLt", ast.Eq: "BEq", ast.NotEq: "BNe"}
 
